@@ -313,7 +313,7 @@ impl Communicator {
 }
 
 //@fn from_utf8_lossy
-//@rreplace 2 /String::from_utf8/ => /StringM::from_utf8/
+//@rreplace + /String::from_utf8/ => /StringM::from_utf8/
     // the text variants equal the lossy UTF-8 decoding of the byte result, whichever branch is taken
     ensures r@ == lossy(v@), //[C02]
 //@end
